@@ -400,6 +400,12 @@ func count(cnt Counters, surface string, op l0.Op, c *Call, rows []queue.VerifRo
 			}
 			if matches > eff {
 				cnt.add("limit_binding", surface)
+				if f.Limit == 0 {
+					cnt.add("cap_default_100", surface)
+				}
+				if eff == 1000 {
+					cnt.add("cap_max_1000", surface)
+				}
 			}
 			if f.Limit > 0 && matches < f.Limit && matches > 0 {
 				cnt.add("limit_above_matches", surface)
